@@ -1,9 +1,11 @@
 package markdown
 
 import (
+	"bufio"
 	"bytes"
 	"context"
 	"fmt"
+	"html"
 	"io"
 	"io/fs"
 	"regexp"
@@ -16,7 +18,9 @@ import (
 	east "github.com/yuin/goldmark/extension/ast"
 	"github.com/yuin/goldmark/extension"
 	"github.com/yuin/goldmark/parser"
+	ghtml "github.com/yuin/goldmark/renderer/html"
 	"github.com/yuin/goldmark/text"
+	"github.com/yuin/goldmark/util"
 
 	yaml "gopkg.in/yaml.v3"
 )
@@ -197,7 +201,7 @@ func (m *Markdown) renderParagraph(w io.Writer, n *ast.Paragraph, src []byte) er
 // renderFencedCodeBlock renders a fenced code block with optional language.
 func (m *Markdown) renderFencedCodeBlock(w io.Writer, n *ast.FencedCodeBlock, src []byte) error {
 	return m.renderTemplate(w, "code_block", map[string]any{
-		"language": string(n.Language(src)),
+		"language": plainText(n.Language(src)),
 		"code":     codeBlockContent(n, src),
 	})
 }
@@ -311,8 +315,13 @@ func (m *Markdown) renderInlineChildren(w io.Writer, node ast.Node, src []byte) 
 func (m *Markdown) renderInlineNode(w io.Writer, node ast.Node, src []byte) error {
 	switch n := node.(type) {
 	case *ast.Text:
-		segment := string(n.Segment.Value(src))
-		if _, err := io.WriteString(w, segment); err != nil {
+		// Text goes into a v-html sink: resolve the markdown escapes and
+		// character references it is written with, then escape it as HTML.
+		segment := n.Segment.Value(src)
+		if !n.IsRaw() {
+			segment = []byte(escapedText(segment))
+		}
+		if _, err := w.Write(segment); err != nil {
 			return err
 		}
 		if n.HardLineBreak() {
@@ -339,16 +348,16 @@ func (m *Markdown) renderInlineNode(w io.Writer, node ast.Node, src []byte) erro
 	case *ast.Link:
 		content := m.inlineContent(n, src)
 		return m.renderTemplate(w, "link", map[string]any{
-			"href":    string(n.Destination),
-			"title":   string(n.Title),
+			"href":    string(util.URLEscape(n.Destination, true)),
+			"title":   plainText(n.Title),
 			"content": content,
 		})
 	case *ast.Image:
 		alt := inlineText(n, src)
 		return m.renderTemplate(w, "image", map[string]any{
-			"src":   string(n.Destination),
+			"src":   string(util.URLEscape(n.Destination, true)),
 			"alt":   alt,
-			"title": string(n.Title),
+			"title": plainText(n.Title),
 		})
 	case *ast.AutoLink:
 		url := string(n.URL(src))
@@ -412,8 +421,17 @@ func (m *Markdown) renderTemplate(w io.Writer, name string, data map[string]any)
 func inlineText(node ast.Node, src []byte) string {
 	var buf strings.Builder
 	for c := node.FirstChild(); c != nil; c = c.NextSibling() {
-		if t, ok := c.(*ast.Text); ok {
-			buf.Write(t.Segment.Value(src))
+		if cs, ok := c.(*ast.CodeSpan); ok {
+			buf.WriteString(codeSpanContent(cs, src)) // code is literal
+		} else if t, ok := c.(*ast.Text); ok {
+			if t.IsRaw() {
+				buf.Write(t.Segment.Value(src))
+			} else {
+				buf.WriteString(plainText(t.Segment.Value(src)))
+			}
+			if t.SoftLineBreak() || t.HardLineBreak() {
+				buf.WriteString(" ")
+			}
 		} else if c.HasChildren() {
 			buf.WriteString(inlineText(c, src))
 		}
@@ -421,7 +439,24 @@ func inlineText(node ast.Node, src []byte) string {
 	return buf.String()
 }
 
-// codeBlockContent extracts the raw text lines from a code block node.
+// escapedText renders a piece of markdown source as HTML text the way
+// goldmark's own renderer does: backslash escapes and character references are
+// resolved in one pass (an escaped "\&amp;" stays the five characters "&amp;")
+// and the result is HTML-escaped.
+func escapedText(b []byte) string {
+	var buf bytes.Buffer
+	bw := bufio.NewWriter(&buf)
+	ghtml.DefaultWriter.Write(bw, b)
+	_ = bw.Flush()
+	return buf.String()
+}
+
+// plainText returns the text a piece of markdown source stands for (for
+// attribute values, which the template engine escapes itself).
+func plainText(b []byte) string {
+	return html.UnescapeString(escapedText(b))
+}
+
 func codeBlockContent(node ast.Node, src []byte) string {
 	var buf strings.Builder
 	lines := node.Lines()
